@@ -88,3 +88,52 @@ pub broadcast proof fn lemma_apply_stable_b(t: Ty, s1: Map<Seq<char>, Ty>, s2: M
 {
     lemma_apply_stable(t, s1, s2, r);
 }
+
+// ---- C03: after specialisation no type parameter remains ----
+pub open spec fn no_tparam(t: Ty) -> bool
+    decreases t,
+{
+    match t {
+        Ty::TParam { .. } => false,
+        Ty::TTuple { typs } => forall|i: int| 0 <= i < typs@.len() ==> no_tparam(#[trigger] typs@[i]),
+        Ty::TApp { ty, args } => no_tparam(*ty) && forall|i: int| 0 <= i < args@.len() ==> no_tparam(#[trigger] args@[i]),
+        Ty::TArray { len: _, elem } => no_tparam(*elem),
+        Ty::TVec { elem } => no_tparam(*elem),
+        Ty::TRef { elem } => no_tparam(*elem),
+        Ty::TFunc { params, ret_ty } => no_tparam(*ret_ty) && forall|i: int| 0 <= i < params@.len() ==> no_tparam(#[trigger] params@[i]),
+        _ => true,
+    }
+}
+// every binding of the substitution is itself free of type parameters (what a call from monomorphic code provides)
+pub open spec fn ground_subst(s: Map<Seq<char>, Ty>) -> bool { forall|k: Seq<char>| #[trigger] s.contains_key(k) ==> no_tparam(s[k]) }
+// applying a ground substitution that binds every parameter of t leaves no parameter behind
+pub proof fn lemma_apply_ground(t: Ty, s: Map<Seq<char>, Ty>, r: Ty)
+    requires is_apply(t, s, r), covers(t, s), ground_subst(s),
+    ensures no_tparam(r),
+    decreases t,
+{
+    match t {
+        Ty::TParam { name } => { assert(s.contains_key(name@)); }
+        Ty::TTuple { typs } => {
+            assert forall|i: int| 0 <= i < r->TTuple_typs@.len() implies no_tparam(#[trigger] r->TTuple_typs@[i]) by {
+                lemma_apply_ground(typs@[i], s, r->TTuple_typs@[i]);
+            }
+        }
+        Ty::TApp { ty, args } => {
+            lemma_apply_ground(*ty, s, *r->TApp_ty);
+            assert forall|i: int| 0 <= i < r->TApp_args@.len() implies no_tparam(#[trigger] r->TApp_args@[i]) by {
+                lemma_apply_ground(args@[i], s, r->TApp_args@[i]);
+            }
+        }
+        Ty::TArray { len: _, elem } => { lemma_apply_ground(*elem, s, *r->TArray_elem); }
+        Ty::TVec { elem } => { lemma_apply_ground(*elem, s, *r->TVec_elem); }
+        Ty::TRef { elem } => { lemma_apply_ground(*elem, s, *r->TRef_elem); }
+        Ty::TFunc { params, ret_ty } => {
+            lemma_apply_ground(*ret_ty, s, *r->TFunc_ret_ty);
+            assert forall|i: int| 0 <= i < r->TFunc_params@.len() implies no_tparam(#[trigger] r->TFunc_params@[i]) by {
+                lemma_apply_ground(params@[i], s, r->TFunc_params@[i]);
+            }
+        }
+        _ => {}
+    }
+}
